@@ -23,52 +23,71 @@ def _super_init_calls(fn):
     return out
 
 
-def dep_params(model, ci, _seen=None):
+def init_calls(model, ci, owner, fn):
+    """Calls in owner.__init__ (as used by instances of ci) that run a base initialiser:
+    list of (parent ClassInfo, positional args, keywords)."""
+    from .model import ClassInfo
+
+    out = []
+    mro = model.mro(ci)
+    for c in ast.walk(fn):
+        if not (isinstance(c, ast.Call) and isinstance(c.func, ast.Attribute) and c.func.attr == "__init__"):
+            continue
+        v = c.func.value
+        if isinstance(v, ast.Call) and dotted(v.func) == "super":
+            idx = mro.index(owner) if owner in mro else -1
+            nxt = None
+            for k in mro[idx + 1 :]:
+                if "__init__" in k.methods:
+                    nxt = k
+                    break
+            if nxt is not None:
+                out.append((nxt, list(c.args), list(c.keywords)))
+        else:
+            r = model.resolve_expr(owner.module, v)
+            if isinstance(r, ClassInfo) and c.args and isinstance(c.args[0], ast.Name) and c.args[0].id == "self":
+                found = model.find_method(r, "__init__")
+                if found:
+                    out.append((found[0], list(c.args[1:]), list(c.keywords)))
+    return out
+
+
+def dep_params(model, ci, _seen=None, owner=None):
     """Parameters of the __init__ that instances of ci use, which flow into
     Samplable.__init__(dependencies).  Returns (owner class, set(param names), set(field names))."""
     _seen = _seen or set()
-    found = model.find_method(ci, "__init__")
-    if found is None:
-        return None, set(), set()
-    owner, fn = found
+    if owner is None:
+        found = model.find_method(ci, "__init__")
+        if found is None:
+            return None, set(), set()
+        owner, fn = found
+    else:
+        fn = owner.methods["__init__"]
     if owner.fq == SAMPLABLE:
         return owner, {"dependencies"}, set()
     if owner.fq in _seen:
         return owner, set(), set()
-    _seen.add(owner.fq)
-    # next class after owner in ci's MRO having __init__
-    mro = model.mro(ci)
-    idx = mro.index(owner)
-    parent_cls = None
-    for c in mro[idx + 1 :]:
-        if "__init__" in c.methods:
-            parent_cls = c
-            break
-    if parent_cls is None:
-        return owner, set(), set()
-    if parent_cls.fq == SAMPLABLE:
-        pdeps = {"dependencies"}
-        pfn = parent_cls.methods["__init__"]
-    else:
-        # dep params of the parent's init, computed on a pseudo-class view
-        _, pdeps, _ = dep_params(model, parent_cls, _seen)
-        pfn = parent_cls.methods["__init__"]
+    _seen = _seen | {owner.fq}
     params, fields = set(), set()
-    sig = lib.signature(pfn, bound=True)
-    a = pfn.args
-    vararg = a.vararg.arg if a.vararg else None
     myparams = {x.arg for x in fn.args.args[1:]} | {x.arg for x in fn.args.kwonlyargs}
     if fn.args.vararg:
         myparams.add(fn.args.vararg.arg)
     if fn.args.kwarg:
         myparams.add(fn.args.kwarg.arg)
-    for call in _super_init_calls(fn):
+    for parent_cls, args, keywords in init_calls(model, ci, owner, fn):
+        if parent_cls.fq == SAMPLABLE:
+            pdeps = {"dependencies"}
+        else:
+            _, pdeps, _ = dep_params(model, ci, _seen, owner=parent_cls)
+        pfn = parent_cls.methods["__init__"]
+        sig = lib.signature(pfn, bound=True)
+        vararg = pfn.args.vararg.arg if pfn.args.vararg else None
+        kwarg = pfn.args.kwarg.arg if pfn.args.kwarg else None
         pos = sig["pos"]
         i = 0
-        for arg in call.args:
+        for arg in args:
             e = arg.value if isinstance(arg, ast.Starred) else arg
             if isinstance(arg, ast.Starred):
-                # a starred arg spreads over the remaining positionals and the vararg
                 target_is_dep = any(p in pdeps for p in pos[i:]) or (vararg in pdeps)
                 i = len(pos)
             elif i < len(pos):
@@ -78,12 +97,13 @@ def dep_params(model, ci, _seen=None):
                 target_is_dep = vararg in pdeps
             if target_is_dep:
                 _collect(e, myparams, params, fields, fn)
-        for k in call.keywords:
+        for k in keywords:
             if k.arg is None:
+                if kwarg in pdeps:
+                    _collect(k.value, myparams, params, fields, fn)
                 continue
             if k.arg in pdeps:
                 _collect(k.value, myparams, params, fields, fn)
-    # locals assigned from params (e.g. args = tuple(toDistribution(a) for a in args)) keep their name
     return owner, params, fields
 
 
@@ -129,7 +149,94 @@ def _collect(e, myparams, params, fields, fn=None, depth=0):
         if (last.startswith("to") and last[2:3].isupper()) or last in ("tuple", "list", "dict"):
             if e.args:
                 _collect(e.args[0], myparams, params, fields, fn, depth + 1)
+        if last == "chain":
+            for x in e.args:
+                _collect(x, myparams, params, fields, fn, depth + 1)
         return
+
+
+def _strip_conv(core):
+    while True:
+        if isinstance(core, ast.Call) and len(core.args) == 1 and not core.keywords:
+            cn = (dotted(core.func) or "").split(".")[-1]
+            if cn in ("tuple", "list", "dict") or (cn.startswith("to") and cn[2:3].isupper()):
+                core = core.args[0]
+                continue
+        if isinstance(core, ast.IfExp):
+            # `None if p is None else conv(p)` / `() if p is None else tuple(p)`
+            trivial = lambda x: isinstance(x, ast.Constant) or (isinstance(x, (ast.Tuple, ast.List)) and not x.elts)
+            if trivial(core.body):
+                core = core.orelse
+                continue
+            if trivial(core.orelse):
+                core = core.body
+                continue
+        return core
+
+
+def strict_stores(model, ci, owner, depth=0):
+    """{param -> set(fields)} where the field holds the parameter itself (possibly converted), following
+    pass-through to base initialisers."""
+    fn = owner.methods["__init__"]
+    params = {x.arg for x in fn.args.args[1:]} | {x.arg for x in fn.args.kwonlyargs}
+    if fn.args.vararg:
+        params.add(fn.args.vararg.arg)
+    if fn.args.kwarg:
+        params.add(fn.args.kwarg.arg)
+    out = {}
+    # locals that rebind a converted parameter: args = tuple(toDistribution(a) for a in args)
+    alias = {p: p for p in params}
+    for n in walk_local(fn):
+        if isinstance(n, ast.Assign) and len(n.targets) == 1 and isinstance(n.targets[0], ast.Name):
+            ps, fs = set(), set()
+            _collect(n.value, params, ps, fs, None)
+            if len(ps) == 1 and not fs:
+                alias.setdefault(n.targets[0].id, next(iter(ps)))
+    for n in walk_local(fn):
+        if isinstance(n, ast.Assign):
+            pairs = []
+            for t_ in n.targets:
+                if isinstance(t_, ast.Tuple) and isinstance(n.value, ast.Tuple) and len(t_.elts) == len(n.value.elts):
+                    pairs.extend(zip(t_.elts, n.value.elts))
+                else:
+                    pairs.append((t_, n.value))
+            for t_, v in pairs:
+                if isinstance(t_, ast.Attribute) and isinstance(t_.value, ast.Name) and t_.value.id == "self":
+                    core = _strip_conv(v)
+                    if isinstance(core, ast.Name) and core.id in alias:
+                        out.setdefault(alias[core.id], set()).add(t_.attr)
+    if depth < 6:
+        for nxt, args, keywords in init_calls(model, ci, owner, fn):
+            if nxt.fq == SAMPLABLE:
+                continue
+            pm = strict_stores(model, ci, nxt, depth + 1)
+            pfn = nxt.methods["__init__"]
+            sig = lib.signature(pfn, bound=True)
+            pv = pfn.args.vararg.arg if pfn.args.vararg else None
+            pk = pfn.args.kwarg.arg if pfn.args.kwarg else None
+            i = 0
+            for a in args:
+                e = a.value if isinstance(a, ast.Starred) else a
+                if isinstance(a, ast.Starred):
+                    targets = [pv] if pv and i >= len(sig["pos"]) else []
+                    i = len(sig["pos"])
+                elif i < len(sig["pos"]):
+                    targets = [sig["pos"][i]]
+                    i += 1
+                else:
+                    targets = []
+                core = _strip_conv(e)
+                if isinstance(core, ast.Name) and core.id in alias:
+                    for q_ in targets:
+                        out.setdefault(alias[core.id], set()).update(pm.get(q_, set()))
+            for k in keywords:
+                core = _strip_conv(k.value)
+                if isinstance(core, ast.Name) and core.id in alias:
+                    if k.arg:
+                        out.setdefault(alias[core.id], set()).update(pm.get(k.arg, set()))
+                    elif pk:
+                        out.setdefault(alias[core.id], set()).update(pm.get(pk, set()))
+    return out
 
 
 def dep_fields(model, ci):
@@ -137,24 +244,10 @@ def dep_fields(model, ci):
     owner, params, fields = dep_params(model, ci)
     if owner is None:
         return set()
-    fn = owner.methods["__init__"]
     out = set(fields)
-    # self.f = <expr mentioning dep param>  (direct stores only: Name, tuple(Name), toX(Name))
-    for n in walk_local(fn):
-        if isinstance(n, ast.Assign):
-            pairs = []
-            for t in n.targets:
-                if isinstance(t, ast.Tuple) and isinstance(n.value, ast.Tuple) and len(t.elts) == len(n.value.elts):
-                    pairs.extend(zip(t.elts, n.value.elts))
-                else:
-                    pairs.append((t, n.value))
-            for t, v in pairs:
-                if isinstance(t, ast.Attribute) and isinstance(t.value, ast.Name) and t.value.id == "self":
-                    core = v
-                    while isinstance(core, ast.Call) and len(core.args) == 1 and not core.keywords and dotted(core.func) in ("tuple", "list", "dict"):
-                        core = core.args[0]
-                    if isinstance(core, ast.Name) and core.id in params:
-                        out.add(t.attr)
+    ss = strict_stores(model, ci, owner)
+    for p in params:
+        out |= ss.get(p, set())
     return out
 
 
@@ -282,3 +375,304 @@ def fresh_draws(fn):
             elif isinstance(c.func, ast.Name) and c.func.id in FRESH_DRAW_NAMES:
                 out.append(c)
     return out
+
+
+def derived_fields(model, ci, owner=None):
+    """{param -> set(fields)}: fields of instances of ci whose stored value derives from that __init__ parameter,
+    following locals (all their assignments, loop targets) and the base-initialiser chain."""
+    if owner is None:
+        found = model.find_method(ci, "__init__")
+        if found is None:
+            return {}, None
+        owner, fn = found
+    else:
+        fn = owner.methods["__init__"]
+    params = [a.arg for a in fn.args.args[1:]] + [a.arg for a in fn.args.kwonlyargs]
+    if fn.args.vararg:
+        params.append(fn.args.vararg.arg)
+    if fn.args.kwarg:
+        params.append(fn.args.kwarg.arg)
+    # local closure: local -> set of params it derives from
+    der = {p: {p} for p in params}
+    changed = True
+    while changed:
+        changed = False
+
+        def src(e):
+            out = set()
+            for n in ast.walk(e):
+                if isinstance(n, ast.Name) and n.id in der:
+                    out |= der[n.id]
+            return out
+
+        for n in walk_local(fn):
+            pairs = []
+            if isinstance(n, ast.Assign):
+                for t in n.targets:
+                    if isinstance(t, ast.Tuple) and isinstance(n.value, ast.Tuple) and len(t.elts) == len(n.value.elts):
+                        pairs.extend(zip(t.elts, n.value.elts))
+                    else:
+                        pairs.append((t, n.value))
+            elif isinstance(n, (ast.For, ast.comprehension)):
+                pairs.append((n.target, n.iter))
+            elif isinstance(n, ast.Call) and isinstance(n.func, ast.Attribute) and n.func.attr in ("append", "extend", "add", "update") and isinstance(n.func.value, ast.Name):
+                for a in n.args:
+                    pairs.append((n.func.value, a))
+            for t, v in pairs:
+                s = src(v)
+                for tn in ast.walk(t):
+                    if isinstance(tn, ast.Name) and tn.id not in params:
+                        if not s <= der.get(tn.id, set()):
+                            der.setdefault(tn.id, set()).update(s)
+                            changed = True
+    out = {p: set() for p in params}
+
+    def src(e):
+        o = set()
+        for n in ast.walk(e):
+            if isinstance(n, ast.Name) and n.id in der:
+                o |= der[n.id]
+        return o
+
+    for n in walk_local(fn):
+        if isinstance(n, ast.Assign):
+            pairs = []
+            for t in n.targets:
+                if isinstance(t, ast.Tuple) and isinstance(n.value, ast.Tuple) and len(t.elts) == len(n.value.elts):
+                    pairs.extend(zip(t.elts, n.value.elts))
+                else:
+                    pairs.append((t, n.value))
+            for t, v in pairs:
+                if isinstance(t, ast.Attribute) and isinstance(t.value, ast.Name) and t.value.id == "self":
+                    for p in src(v):
+                        out[p].add(t.attr)
+    # base-initialiser chain
+    for nxt, args, keywords in init_calls(model, ci, owner, fn):
+        if nxt.fq == SAMPLABLE:
+            continue
+        pmap, _ = derived_fields(model, ci, owner=nxt)
+        pfn = nxt.methods["__init__"]
+        sig = lib.signature(pfn, bound=True)
+        pv = pfn.args.vararg.arg if pfn.args.vararg else None
+        pk = pfn.args.kwarg.arg if pfn.args.kwarg else None
+        i = 0
+        for a in args:
+            if isinstance(a, ast.Starred):
+                targets = sig["pos"][i:] + ([pv] if pv else [])
+                i = len(sig["pos"])
+                e = a.value
+            elif i < len(sig["pos"]):
+                targets = [sig["pos"][i]]
+                i += 1
+                e = a
+            else:
+                targets = [pv] if pv else []
+                e = a
+            for p in src(e):
+                for q in targets:
+                    out[p] |= pmap.get(q, set())
+        for k in keywords:
+            if k.arg:
+                for p in src(k.value):
+                    out[p] |= pmap.get(k.arg, set())
+            elif pk or True:
+                # **kwargs pass-through: may reach any keyword-capable parameter
+                for p in src(k.value):
+                    for q, fs in pmap.items():
+                        out[p] |= fs
+    return out, fn
+
+
+
+
+# ----------------------------------------------------------------------
+# G3: reconstruction consistency (evaluateInner / sampleGiven / clone rebuilds)
+
+
+def local_env(fn):
+    """{local name: expr} for names assigned exactly once in fn (tuple-unpacking of tuples included)."""
+    seen, env = {}, {}
+    for n in walk_local(fn):
+        if isinstance(n, ast.Assign):
+            for t in n.targets:
+                if isinstance(t, ast.Tuple) and isinstance(n.value, ast.Tuple) and len(t.elts) == len(n.value.elts):
+                    prs = list(zip(t.elts, n.value.elts))
+                else:
+                    prs = [(t, n.value)]
+                for a, b in prs:
+                    if isinstance(a, ast.Name):
+                        seen[a.id] = seen.get(a.id, 0) + 1
+                        env[a.id] = b
+                    else:
+                        for x in ast.walk(a):
+                            if isinstance(x, ast.Name) and isinstance(x.ctx, ast.Store):
+                                seen[x.id] = seen.get(x.id, 0) + 2
+        elif isinstance(n, (ast.AugAssign, ast.For, ast.comprehension, ast.NamedExpr, ast.With)):
+            tgt = getattr(n, "target", None)
+            if tgt is not None and not isinstance(n, ast.comprehension):
+                for x in ast.walk(tgt):
+                    if isinstance(x, ast.Name):
+                        seen[x.id] = seen.get(x.id, 0) + 2
+    return {k: v for k, v in env.items() if seen.get(k) == 1}
+
+
+def resolve_expr(e, env, depth=0):
+    """Substitute single-assignment locals (returns list of expressions: e and what it stands for)."""
+    if depth > 5:
+        return e
+    if isinstance(e, ast.Name) and e.id in env:
+        return resolve_expr(env[e.id], env, depth + 1)
+    return e
+
+
+def rebuilt_classes(model, ci, fn, call):
+    """Classes that `call` may construct inside method fn of ci, or None if not a constructor call."""
+    f = call.func
+    txt = unparse(f)
+    if txt in ("type(self)", "self.__class__"):
+        return [ci]
+    if isinstance(f, ast.Name):
+        r = model.resolve_name(ci.module, f.id)
+        from .model import ClassInfo
+
+        if isinstance(r, ClassInfo):
+            return [r]
+        # local alias bound to class names in every assignment (cls = MeshVolumeRegion / cls = MeshSurfaceRegion)
+        vals = []
+        for n in walk_local(fn):
+            if isinstance(n, ast.Assign) and any(isinstance(t, ast.Name) and t.id == f.id for t in n.targets):
+                vals.append(n.value)
+        out = []
+        for v in vals:
+            if isinstance(v, ast.Name):
+                r = model.resolve_name(ci.module, v.id)
+                if isinstance(r, ClassInfo):
+                    out.append(r)
+                    continue
+            if unparse(v) in ("type(self)", "self.__class__"):
+                out.append(ci)
+                continue
+            return None
+        return out or None
+    return None
+
+
+def self_fields(e, selfname="self"):
+    return [n for n in ast.walk(e) if isinstance(n, ast.Attribute) and isinstance(n.value, ast.Name) and n.value.id == selfname and isinstance(n.ctx, ast.Load)]
+
+
+def check_rebuild(ctx, rule, ci, fn, mode):
+    """mode: 'evaluateInner' (dependency fields must pass through valueInContext(.., context)),
+    'sampleGiven' (through value[..]) or 'clone' (raw).  Returns number of constructor calls checked."""
+    model = ctx.model
+    env = local_env(fn)
+    n_calls = 0
+    for r in lib.returns_of(fn):
+        if r.value is None:
+            continue
+        calls = [r.value] if isinstance(r.value, ast.Call) else []
+        for call in calls:
+            targets = rebuilt_classes(model, ci, fn, call)
+            if not targets:
+                continue
+            for tc in targets:
+                found = model.find_method(tc, "__init__")
+                if found is None:
+                    continue
+                owner_b, init = found
+                # pure pass-through initialisers (*args, **kwargs forwarded to the base): bind against the base
+                hops = 0
+                supplied = set()
+                while init.args.vararg and init.args.kwarg and hops < 4:
+                    ics = init_calls(model, tc, owner_b, init)
+                    fwd = [
+                        ic
+                        for ic in ics
+                        if any(isinstance(a, ast.Starred) and isinstance(a.value, ast.Name) and a.value.id == init.args.vararg.arg for a in ic[1])
+                        and any(k.arg is None and isinstance(k.value, ast.Name) and k.value.id == init.args.kwarg.arg for k in ic[2])
+                    ]
+                    if len(fwd) != 1 or fwd[0][0].fq == SAMPLABLE:
+                        break
+                    supplied |= {k.arg for k in fwd[0][2] if k.arg}
+                    owner_b = fwd[0][0]
+                    init = owner_b.methods["__init__"]
+                    hops += 1
+                n_calls += 1
+                err = lib.bind_error(call, init, bound=True, supplied=supplied)
+                if err:
+                    ctx.finding(
+                        rule,
+                        call,
+                        f"{ci.name}.{fn.name} -> {tc.name}(...) binding",
+                        f"{ci.name}.{fn.name} rebuilds `{tc.name}` with `{norm_text(call, 100)}` which cannot bind to {tc.name}.__init__: {err}",
+                    )
+                    continue
+                dmap, _ = derived_fields(model, tc, owner=owner_b)
+                deps = dep_fields(model, tc)
+                sig = lib.signature(init, bound=True)
+                passthru = {init.args.vararg.arg if init.args.vararg else None, init.args.kwarg.arg if init.args.kwarg else None}
+                pairs = []
+                pos = sig["pos"]
+                i = 0
+                for a in call.args:
+                    if isinstance(a, ast.Starred):
+                        tgt = (pos[i:] + ([init.args.vararg.arg] if init.args.vararg else []))
+                        pairs.append((tgt, a.value))
+                        i = len(pos)
+                    elif i < len(pos):
+                        pairs.append(([pos[i]], a))
+                        i += 1
+                    elif init.args.vararg:
+                        pairs.append(([init.args.vararg.arg], a))
+                for k in call.keywords:
+                    if k.arg:
+                        pairs.append(([k.arg], k.value))
+                good = True
+                for params, a in pairs:
+                    ra = resolve_expr(a, env)
+                    allowed = set()
+                    for p in params:
+                        allowed |= dmap.get(p, set()) | {p}
+                    skip_corr = any(p in passthru or p not in dmap for p in params)
+                    for sf in self_fields(ra):
+                        if sf.attr.startswith("__"):
+                            continue
+                        if any(isinstance(x, ast.IfExp) and any(y is sf for y in ast.walk(x.test)) for x in ancestors(sf)):
+                            continue
+                        if sf.attr not in allowed and not skip_corr:
+                            # fields merely consulted inside conditions (x if self.flag else y) are not the value passed
+                            good = False
+                            ctx.finding(
+                                rule,
+                                call,
+                                f"{ci.name}.{fn.name} arg {'/'.join(params)} <- self.{sf.attr}",
+                                f"{ci.name}.{fn.name} passes `{norm_text(ra, 80)}` for parameter `{'/'.join(params)}` of {tc.name}, "
+                                f"but the constructor stores that parameter in {sorted(allowed)}: the rebuilt object differs from the original",
+                            )
+                        elif sf.attr in deps and mode in ("evaluateInner", "sampleGiven"):
+                            wrapped = False
+                            for anc in ancestors(sf):
+                                if mode == "evaluateInner" and isinstance(anc, ast.Call) and dotted(anc.func) == "valueInContext":
+                                    wrapped = True
+                                if mode == "sampleGiven" and isinstance(anc, ast.Subscript) and isinstance(anc.value, ast.Name) and anc.value.id == fn.args.args[1].arg:
+                                    wrapped = True
+                                if isinstance(anc, (ast.comprehension, ast.For)) and anc.iter is not None and any(x is sf for x in ast.walk(anc.iter)):
+                                    # iterated: the element must be wrapped where it is used
+                                    comp = parent(anc) if isinstance(anc, ast.comprehension) else anc
+                                    t = unparse(comp)
+                                    if (mode == "evaluateInner" and "valueInContext(" in t) or (mode == "sampleGiven" and f"{fn.args.args[1].arg}[" in t):
+                                        wrapped = True
+                                if anc is ra or anc is r:
+                                    break
+                            if not wrapped:
+                                good = False
+                                what = "valueInContext(..., context)" if mode == "evaluateInner" else "value[...]"
+                                ctx.finding(
+                                    rule,
+                                    call,
+                                    f"{ci.name}.{fn.name} raw dependency self.{sf.attr}",
+                                    f"{ci.name}.{fn.name} passes dependency field `self.{sf.attr}` to {tc.name}(...) without {what}",
+                                )
+                if good:
+                    ctx.ok(rule, call, f"{ci.name}.{fn.name} rebuilds {tc.name} with arguments bound to their own constructor parameters")
+    return n_calls
